@@ -119,7 +119,20 @@ def run(ctx, tier):
                 for bi, t in b.calls():
                     if t['func'].get('path') == 'std::option::Option::<T>::ok_or':
                         x = fn.arg_terms(t, 0, bi)
-                        if x and all(n[0] == 'field' and n[2] == F and all(q[0] == 'param' and q[1] == 1 for q in n[1]) for n in x):
+
+                        def _is_field(ts, F=F, d=0):
+                            # self.F, or Option::zip(.., self.F, ..): None as soon as self.F is None
+                            if not ts or d > 3:
+                                return False
+                            for n in ts:
+                                if n[0] == 'field' and n[2] == F and all(q[0] == 'param' and q[1] == 1 for q in n[1]):
+                                    continue
+                                if n[0] == 'call' and n[1] == 'std::option::Option::<T>::zip' and len(n[2]) == 2 and \
+                                        (_is_field(n[2][0], F, d + 1) or _is_field(n[2][1], F, d + 1)):
+                                    continue
+                                return False
+                            return True
+                        if _is_field(x):
                             e = fn.arg_terms(t, 1, bi)
                             gates.append((bi, e))
                 # does this entry point (or its planner-local callees) use the field at all?
@@ -333,6 +346,10 @@ def discharge(ctx, p, b, fn, kind, detail, bi, t):
                         v = fn.rvalue_terms(st['rv'], (sb, 0))
                         if v and all(n[0] == 'agg' and n[2] == 'Some' for n in v):
                             return 'local-guard', 'self.%s was assigned Some(..) earlier in this function' % F, what
+        # the minimum of a scan over a tree that always holds its root: min_by(.. iter(cont) ..) is Some
+        am = P.argmin_info(ctx, T(('unwrap', x))) if x else None
+        if am is not None and p is not None and _nonempty_container(ctx, p, fn, am['cont']):
+            return 'checked-invariant', 'minimum over a tree that always holds its root (C02.reroot pushes it, C15.noremove keeps it)', what
         # parent_map[&k] / walk: Option payloads guarded by a dominating Some edge are `unwrap` nodes from matches, not calls
         return 'violation', '%s() on %s: a failure here is a panic, not an error' % (detail, fmt_terms(x)[:80]), what
     if kind == 'index':
